@@ -1,0 +1,53 @@
+//go:build verif
+// +build verif
+
+package schedulerplugin
+
+import (
+	corev1 "k8s.io/api/core/v1"
+	"tkestack.io/galaxy/pkg/ipam/cloudprovider"
+	"tkestack.io/galaxy/pkg/ipam/schedulerplugin/util"
+)
+
+// This file only exists with the `verif` build tag. It exports otherwise unexported entry points so that an
+// external harness can drive them at a time of its choosing instead of waiting for Run()'s timers.
+
+// VerifResyncOnce runs one resync pass.
+func (p *FloatingIPPlugin) VerifResyncOnce() error {
+	return p.resyncPod()
+}
+
+// VerifSyncPodIPs runs one pod-IP sync pass.
+func (p *FloatingIPPlugin) VerifSyncPodIPs() {
+	p.syncPodIPsIntoDB()
+}
+
+// VerifUnbind runs unbind for the given pod.
+func (p *FloatingIPPlugin) VerifUnbind(pod *corev1.Pod) error {
+	return p.unbind(pod)
+}
+
+// VerifSetCloudProvider sets the cloud provider.
+func (p *FloatingIPPlugin) VerifSetCloudProvider(cp cloudprovider.CloudProvider) {
+	p.cloudProvider = cp
+}
+
+// VerifTakeReleaseEvent does a non-blocking receive from the release event queue.
+func (p *FloatingIPPlugin) VerifTakeReleaseEvent() (*corev1.Pod, bool) {
+	select {
+	case e := <-p.unreleased:
+		return e.pod, true
+	default:
+		return nil, false
+	}
+}
+
+// VerifReloadConfigMap runs one configmap reload.
+func (p *FloatingIPPlugin) VerifReloadConfigMap() (bool, error) {
+	return p.updateConfigMap()
+}
+
+// VerifAppReplicas returns the plugin's view of the parent app of the given key.
+func (p *FloatingIPPlugin) VerifAppReplicas(keyObj *util.KeyObj) (bool, int32, error) {
+	return p.checkAppAndReplicas(keyObj)
+}
